@@ -339,6 +339,17 @@ def _run_B(case: Dict[str, Any], res: core.Res) -> None:
     rec_exts = []
     for w in WHENS:
         rec_exts.append(type(f'Rec{w}', (extensions.ModuleVisitorExt,), {'when': getattr(visitor.When, w)}))
+    # an extension whose handlers are named after *base classes* of the node types (ast.stmt, ast.expr, ast.AST): whatever the dispatch
+    # does with such names, it must do the same for entering and for leaving
+    base_named = {'enter': 0, 'leave': 0}
+
+    def _enter(self: Any, node: Any) -> None:
+        base_named['enter'] += 1
+
+    def _leave(self: Any, node: Any) -> None:
+        base_named['leave'] += 1
+    rec_exts.append(type('RecBaseNamed', (extensions.ModuleVisitorExt,), {'when': visitor.When.BEFORE, 'visit_stmt': _enter, 'depart_stmt': _leave, 'visit_expr': _enter,
+                                                                           'depart_expr': _leave, 'visit_AST': _enter, 'depart_AST': _leave, 'visit_mod': _enter, 'depart_mod': _leave}))
     extensions.ExtRegistrar(system).register_astbuilder_visitor(*rec_exts)
 
     stack_obs: List[Tuple[str, Any]] = []
@@ -375,6 +386,10 @@ def _run_B(case: Dict[str, Any], res: core.Res) -> None:
         astbuilder.ASTBuilder.processModuleAST = orig  # type: ignore[method-assign]
 
     label = case.get('path') or ('wild%s' % case.get('wild')) if ('path' in case or 'wild' in case) else 'tricky'
+    res.c('base_named_handler_checks')
+    if base_named['enter'] != base_named['leave'] and not any(st[3] for _, st in stack_obs):
+        res.v('C19:base-class-named-handlers-unbalanced', f'{label}: handlers named after base classes of the node types were entered {base_named["enter"]} times and left {base_named["leave"]} times',
+              case=label)
     for name, (stack, cur, curmod, raised) in stack_obs:
         if raised:
             continue
